@@ -8,6 +8,7 @@ import (
 	"runtime"
 	"sort"
 	"sync"
+	"sync/atomic"
 	"time"
 )
 
@@ -107,7 +108,7 @@ func casterF(h *hctx) {
 		for i := 0; i < casterFill; i++ {
 			x.C <- i
 		}
-		x.state.Store(w)
+		casterStateOf(x).Store(w)
 		type res struct {
 			ret int
 			p   bool
@@ -124,7 +125,7 @@ func casterF(h *hctx) {
 			h.line("MONITOR C08 word-level Add blocked: hi=%d lo=%d dkind=%d delta=%d", hi, lo, d.kind, d.delta)
 			return
 		}
-		nw := x.state.Load()
+		nw := casterStateOf(x).Load()
 		lit := d.delta
 		if d.kind != 0 {
 			lit = 0
@@ -216,7 +217,7 @@ func casterF(h *hctx) {
 				defer helper.Done()
 				<-x.C // Send is now blocked in (or on its way to) its second channel send: the store below is
 				// ordered before Send's final load by the next receive
-				x.state.Store(casterWord(hi2, lo2))
+				casterStateOf(x).Store(casterWord(hi2, lo2))
 				for i := uint32(1); i < hi; i++ {
 					<-x.C
 				}
@@ -224,7 +225,7 @@ func casterF(h *hctx) {
 		} else {
 			x = NewChanCaster(make(chan int, 8))
 		}
-		x.state.Store(casterWord(hi, lo))
+		casterStateOf(x).Store(casterWord(hi, lo))
 		type res struct {
 			ret int
 			p   bool
@@ -246,7 +247,7 @@ func casterF(h *hctx) {
 			helper.Wait()
 			sent = int(hi)
 		}
-		nw := x.state.Load()
+		nw := casterStateOf(x).Load()
 		h.line("F caster_send s%d %d %d %d %d %d | %d %d %d %d %d", sid, hi, lo, boolInt(mut), hi2, lo2,
 			boolInt(r.p), r.ret, uint32(nw>>32), uint32(nw), sent)
 		sid++
@@ -398,7 +399,7 @@ func casterMisuseSeq(h *hctx, pre []int, bad int) {
 		return
 	}
 	// tails
-	w := x.state.Load()
+	w := casterStateOf(x).Load()
 	valid := casterValidWord(w)
 	r, ok = do(casterCall{delta: 0})
 	if !ok {
@@ -800,7 +801,7 @@ func casterK2Case(h *hctx, id string, phased bool, shape *[3]int) {
 	} else if final != 0 {
 		h.line("MONITOR C08 Add(0) = %d after all calls returned, expected 0 (%s)", final, desc())
 	}
-	if w := x.state.Load(); w != 0 && !fp && final == 0 {
+	if w := casterStateOf(x).Load(); w != 0 && !fp && final == 0 {
 		h.line("MONITOR C08 state word %#x after all calls returned, expected 0 (%s)", w, desc())
 	}
 	if phased && !anyPanic {
@@ -813,7 +814,7 @@ func casterK2Case(h *hctx, id string, phased bool, shape *[3]int) {
 				s.ret, lo, hi, R-nlate, nd, nlate, desc())
 		}
 		if nlate == 0 {
-			w := x.state.Load()
+			w := casterStateOf(x).Load()
 			h.line("F caster_round %s %d %d | %d %d %d", id, R, nd, s.ret, uint32(w>>32), uint32(w))
 			if nd > 0 && nd < R {
 				h.count("k2_round_with_racing_dereg", 1)
@@ -891,7 +892,7 @@ func casterCasCases(h *hctx) {
 	sp := &casterSeqPolicy{}
 	{
 		x := NewChanCaster(make(chan int, 1))
-		x.state.Store(casterWord(1, 1))
+		casterStateOf(x).Store(casterWord(1, 1))
 		setPolicy(sp)
 		casterSafeSend(x, 1)
 		setPolicy(nil)
@@ -904,14 +905,14 @@ func casterCasCases(h *hctx) {
 	id := 0
 	run := func(r uint32, mut2 bool, hi2, lo2 uint32, mut3 bool, hi3, lo3 uint32) {
 		x := NewChanCaster(make(chan int))
-		x.state.Store(casterWord(r, r))
+		casterStateOf(x).Store(casterWord(r, r))
 		var helper sync.WaitGroup
 		helper.Add(1)
 		go func() {
 			defer helper.Done()
 			<-x.C
 			if mut2 {
-				x.state.Store(casterWord(hi2, lo2))
+				casterStateOf(x).Store(casterWord(hi2, lo2))
 			}
 			for i := uint32(1); i < r; i++ {
 				<-x.C
@@ -919,7 +920,7 @@ func casterCasCases(h *hctx) {
 		}()
 		hp := &casterHookPolicy{id: pre, fn: func() {
 			if mut3 {
-				x.state.Store(casterWord(hi3, lo3))
+				casterStateOf(x).Store(casterWord(hi3, lo3))
 			}
 		}}
 		setPolicy(hp)
@@ -947,7 +948,7 @@ func casterCasCases(h *hctx) {
 			mut3 = false
 			h.count("cas_hook_not_reached", 1)
 		}
-		nw := x.state.Load()
+		nw := casterStateOf(x).Load()
 		h.line("F caster_send_cas c%d %d %d %d %d %d %d %d | %d %d %d %d", id, r, boolInt(mut2), hi2, lo2, boolInt(mut3), hi3, lo3,
 			boolInt(rs.p), rs.ret, uint32(nw>>32), uint32(nw))
 		id++
@@ -975,4 +976,9 @@ func casterCasCases(h *hctx) {
 			run(r, false, 0, 0, true, uint32(w>>32), uint32(w))
 		}
 	}
+}
+
+// casterStateOf: the packed state word of a ChanCaster (field `state`, the only atomic.Uint64 of the struct)
+func casterStateOf[C chan V, V any](x *ChanCaster[C, V]) *atomic.Uint64 {
+	return fld[atomic.Uint64](x, "state")
 }
